@@ -66,6 +66,38 @@ fn ctx_for<B: Fld>(n: usize, num_assertions: usize) -> AirContext<B> {
     AirContext::new(TraceInfo::new(2, n), vec![TransitionConstraintDegree::new(2)], num_assertions, opts)
 }
 
+/// every assertion must be represented by exactly one constraint, in a group whose divisor vanishes on exactly
+/// the steps the assertion names, and the constraint must accept the asserted values there
+fn groups_ok<B: Fld>(bc: &BoundaryConstraints<B>, n: usize, asserted: &[(usize, &Kind)]) -> Result<(), String> {
+    let p = B::P;
+    let g = root_of_unity::<B>(n.ilog2());
+    let groups = bc.main_constraints();
+    let total: usize = groups.iter().map(|g| g.constraints().len()).sum();
+    if total != asserted.len() {
+        return Err(format!("{} constraints built for {} assertions", total, asserted.len()));
+    }
+    let zero_sets: Vec<Vec<usize>> = groups.iter().map(|gr| (0..n).filter(|i| gr.divisor().evaluate_at(B::mk(powm(g, *i as u128, p))).int() == 0).collect()).collect();
+    for (col, kind) in asserted.iter() {
+        let steps = kind.steps(n);
+        let mut found = false;
+        for (gi, gr) in groups.iter().enumerate() {
+            for c in gr.constraints().iter().filter(|c| c.column() == *col) {
+                let fits = steps.iter().enumerate().all(|(k, s)| c.evaluate_at(B::mk(powm(g, *s as u128, p)), B::mk(kind.value(k))).int() == 0);
+                if fits {
+                    if zero_sets[gi] != steps {
+                        return Err(format!("the constraint for {:?} on column {} is divided by a divisor vanishing on {:?} instead of its own steps", kind, col, zero_sets[gi]));
+                    }
+                    found = true;
+                }
+            }
+        }
+        if !found {
+            return Err(format!("no constraint reproduces the values of {:?} on column {}", kind, col));
+        }
+    }
+    Ok(())
+}
+
 fn c16_subs<B: Fld>(run: &Arc<Run>) -> Vec<Arc<dyn Sub>> {
     let tier = run.tier();
     let lens: Vec<usize> = if tier.is_thorough() { vec![8, 16, 32, 64, 128, 256] } else { vec![8, 16, 32, 64, 128, 256] };
@@ -296,6 +328,22 @@ fn c16_subs<B: Fld>(run: &Arc<Run>) -> Vec<Arc<dyn Sub>> {
                         // they are equal as values; equal assertions do overlap, so they must be refused too
                         if r.is_err() != common {
                             out.violation(format!("{}: a pair of assertions is {} although the step sets {}", B::NAME, if r.is_err() { "refused" } else { "accepted" }, if common { "intersect" } else { "are disjoint" }), d());
+                        }
+                        // grouping: whatever groups the two constraints land in, each must sit under a divisor
+                        // that vanishes on exactly its own steps - on the same column and on different columns
+                        if let Ok(bc) = &r {
+                            if let Err(why) = groups_ok::<B>(bc, n, &[(0, ka), (0, kb)]) {
+                                out.violation(format!("{}: two assertions on one column: {}", B::NAME, why), d());
+                            }
+                        }
+                        let b1 = kb.build::<B>(1);
+                        match pan::catch(|| BoundaryConstraints::<B>::new(ctx, vec![a.clone(), b1.clone()], vec![], &[B::ONE, B::ONE])) {
+                            Ok(bc) => {
+                                if let Err(why) = groups_ok::<B>(&bc, n, &[(0, ka), (1, kb)]) {
+                                    out.violation(format!("{}: two assertions on different columns: {}", B::NAME, why), d());
+                                }
+                            },
+                            Err(pr) => out.violation(format!("{}: assertions on different columns are refused ({})", B::NAME, pr.class()), d()),
                         }
                     }
                 }
